@@ -144,6 +144,120 @@ func VC20_Update() {
 	}
 }
 
+// One UPDATE that withdraws and announces (possibly the same prefix with different identifiers), applied to an
+// Adj-RIB-In that already holds a path of prefix 0: the withdrawals are applied with their own identifiers, then the
+// announcements.
+func VC20_Mixed() {
+	addPath := vParam("addpath") == 1
+	afi := uint16(packet.AFIIPv4)
+	f := c20Family(afi, addPath)
+	nh := bnet.IPv4(0x0a000901)
+	id0, idW, idA := ndU32(), ndU32(), ndU32()
+	if !addPath {
+		id0, idW, idA = 0, 0, 0
+	}
+	u0 := &packet.BGPUpdate{PathAttributes: c20Attrs(1, &nh, true), NLRI: c20NLRIs(afi, 1, []uint32{id0})}
+	f.processUpdate(u0, false, 0)
+	same := vParam("sameprefix") == 1
+	ann := &packet.NLRI{Prefix: c20Pfx(afi, 1), PathIdentifier: idA}
+	if same {
+		ann.Prefix = c20Pfx(afi, 0)
+	}
+	u := &packet.BGPUpdate{PathAttributes: c20Attrs(2, &nh, true), NLRI: ann, WithdrawnRoutes: c20NLRIs(afi, 1, []uint32{idW})}
+	f.processUpdate(u, false, 0)
+	vReach("mixed")
+	r0 := c20Find(f.adjRIBIn.Dump(), c20Pfx(afi, 0))
+	has := func(id uint32, med uint32) bool {
+		if r0 == nil {
+			return false
+		}
+		for _, p := range r0.Paths() {
+			if p.BGPPath.PathIdentifier == id && p.BGPPath.BGPPathA.MED == med {
+				return true
+			}
+		}
+		return false
+	}
+	n0 := 0
+	if r0 != nil {
+		n0 = len(r0.Paths())
+	}
+	if !addPath {
+		if same {
+			vAssert(n0 == 1 && has(0, 2), "C20.mixed.noaddpath.replaced")
+		} else {
+			vAssert(n0 == 0, "C20.mixed.noaddpath.withdrawn")
+		}
+		return
+	}
+	oldStays := idW != id0
+	if same {
+		// the announcement installs (P0,idA) with the new attributes; the old path stays iff it was neither
+		// withdrawn nor replaced by the announcement with the same identifier
+		vAssert(has(idA, 2), "C20.mixed.announced")
+		keep := oldStays && idA != id0
+		vAssert(has(id0, 1) == keep, "C20.mixed.withdrawn.own.id")
+		want := 1
+		if keep {
+			want = 2
+		}
+		vAssert(n0 == want, "C20.mixed.count")
+	} else {
+		vAssert(has(id0, 1) == oldStays, "C20.mixed.withdrawn.own.id")
+		r1 := c20Find(f.adjRIBIn.Dump(), c20Pfx(afi, 1))
+		vAssert(r1 != nil && len(r1.Paths()) == 1 && r1.Paths()[0].BGPPath.PathIdentifier == idA, "C20.mixed.announced")
+	}
+}
+
+// The established state hands an UPDATE to every configured address family: classic IPv4 fields and the multiprotocol
+// attributes of one message are both applied.
+func VC20_Established() {
+	f4 := c20Family(packet.AFIIPv4, false)
+	fsm := f4.fsm
+	f6 := c20Family(packet.AFIIPv6, false)
+	f6.fsm = fsm
+	fsm.ipv4Unicast, fsm.ipv6Unicast = f4, f6
+	fsm.holdTime = 0
+	s := newEstablishedState(fsm)
+	nh4 := bnet.IPv4(0x0a000901)
+	nh6 := bnet.IPv6(0x20010db8ffff0000, 1)
+	withMP := vParam("mp") == 1
+	with4 := vParam("v4") == 1
+	u := &packet.BGPUpdate{PathAttributes: c20Attrs(7, &nh4, true)}
+	if with4 {
+		u.NLRI = c20NLRIs(packet.AFIIPv4, 2, []uint32{0, 0})
+	}
+	if withMP {
+		u.PathAttributes = &packet.PathAttribute{TypeCode: packet.MultiProtocolReachNLRIAttr, Next: u.PathAttributes,
+			Value: packet.MultiProtocolReachNLRI{AFI: packet.AFIIPv6, SAFI: packet.SAFIUnicast, NextHop: &nh6, NLRI: c20NLRIs(packet.AFIIPv6, 2, []uint32{0, 0})}}
+	}
+	next, _ := s.update(u, false, 0)
+	_, est := next.(*establishedState)
+	vAssert(est, "C20.established.stays")
+	vReach("established")
+	for i := 0; i < 2; i++ {
+		r4 := c20Find(f4.adjRIBIn.Dump(), c20Pfx(packet.AFIIPv4, i))
+		vAssert((r4 != nil && len(r4.Paths()) == 1) == with4, "C20.established.ipv4.applied")
+		r6 := c20Find(f6.adjRIBIn.Dump(), c20Pfx(packet.AFIIPv6, i))
+		vAssert((r6 != nil && len(r6.Paths()) == 1) == withMP, "C20.established.ipv6.applied")
+	}
+	// a second message withdrawing one of each (classic withdrawn routes + MP_UNREACH)
+	u2 := &packet.BGPUpdate{}
+	if with4 {
+		u2.WithdrawnRoutes = c20NLRIs(packet.AFIIPv4, 1, []uint32{0})
+	}
+	if withMP {
+		u2.PathAttributes = &packet.PathAttribute{TypeCode: packet.MultiProtocolUnreachNLRIAttr, Value: packet.MultiProtocolUnreachNLRI{AFI: packet.AFIIPv6, SAFI: packet.SAFIUnicast, NLRI: c20NLRIs(packet.AFIIPv6, 1, []uint32{0})}}
+	}
+	s.update(u2, false, 0)
+	for i := 0; i < 2; i++ {
+		r4 := c20Find(f4.adjRIBIn.Dump(), c20Pfx(packet.AFIIPv4, i))
+		vAssert((r4 != nil && len(r4.Paths()) == 1) == (with4 && i == 1), "C20.established.ipv4.withdrawn")
+		r6 := c20Find(f6.adjRIBIn.Dump(), c20Pfx(packet.AFIIPv6, i))
+		vAssert((r6 != nil && len(r6.Paths()) == 1) == (withMP && i == 1), "C20.established.ipv6.withdrawn")
+	}
+}
+
 func VC20_Twin() {
 	_ = c20Family(packet.AFIIPv4, false)
 	vAssert(false, "C20.twin")
